@@ -291,6 +291,19 @@ func Main(args []string) int {
 		cenv := config{schema: names, env: names[:nf-1], rewrite: map[string][]chainItem{}} // environment map with >= 16 entries
 		run(mk(cenv), all, false, t0)
 	}
+	// F2b: field NAMES on both sides of the length-encoding boundaries of a key (fixstr up to 31 bytes, str8 beyond; the encoder
+	// has its own switch at 16), as plain, environment, hidden and rewritten fields
+	for _, nl := range []int{1, 14, 15, 16, 17, 30, 31, 32, 33, 64, 255, 256, 300} {
+		long := strings.Repeat("n", nl-1)
+		names := []string{long + "a", long + "b", long + "c", long + "d"}
+		c := config{schema: names, env: []string{names[1]}, hidden: []string{names[2]}, rewrite: map[string][]chainItem{names[3]: chains["unescape"]}}
+		in := mk(c)
+		run(in, []string{"v1", "v2", "v3", "x\\ny"}, false, t0)
+		run(in, []string{"v1", "", "v3", ""}, false, t0)
+		if nl >= 2 {
+			run(mk(config{schema: names, env: names[:3], rewrite: map[string][]chainItem{}}), []string{"a", "b", "c", "d"}, false, t0)
+		}
+	}
 	// F3: value lengths on both sides of every length-encoding boundary, per field class and chain
 	lengths := []int{1, 15, 16, 31, 32, 255, 256, 65534, 65535, 65536, 65537, 70000}
 	if thorough {
